@@ -304,6 +304,16 @@ def run(prog, rep, tier, repo):
 
     # ------------------------------------------------------------------ LM
     f = prog.func(keys['lm'])
+    # the LM rules read the state of the iteration through the locals that carry it (res, jtj, jtr, jacobian, params).  A body that keeps the
+    # state elsewhere (a struct of its own, helper methods) is not read: every LM obligation stays open
+    if f is not None:
+        present_ = {nm_ for nm_ in f.names.values() if isinstance(nm_, str)}
+        if not {'res', 'jtj', 'jtr', 'jacobian'} <= present_:
+            rep.touch(f.body.key)
+            for sub_ in ('acceptance', 'covariance', 'state-coherent'):
+                rep.undecided('lm', 'lm:%s' % sub_, 'the iteration state is not carried in the locals res / jtj / jtr / jacobian (found %s): LM body not read' % sorted(present_)[:8],
+                              site_of(f.body), proof=False)
+            f = None
     if f is not None:
         rep.touch(f.body.key)
         key = 'lm:acceptance'
@@ -536,6 +546,10 @@ def _early_stop(prog, rep, f, name):
         if tag(cn) == 'discr':
             return 'skip'
         if tag(cn) == 'bin' and len(cn) > 4 and cn[4] in ('f64', 'f32'):
+            # a measure computed by an in-crate helper that is not read (a loop of its own) compared with a tiny constant: not classified
+            if cn[1] in ('Lt', 'Le') and tag(cn[3]) == 'const' and isinstance(cn[3][2], float) and 0 < cn[3][2] < 1e-10 and \
+                    tag(cn[2]) == 'call' and cn[2][1] in prog.pdb.bodies:
+                return None
             return 'other'
         if tag(cn) == 'call' and short(cn[1]) in ('all', 'any'):
             return 'other'
